@@ -1,5 +1,5 @@
 (* C05 — property theorems only. *)
-Require Import V.Lib V.C05_Model V.C05_Proofs.
+Require Import V.Lib V.C05_Model V.C05_Proofs V.C05_RetryProofs V.C05_RRProofs.
 Open Scope N_scope.
 
 (* soundness: no policy ever returns an unavailable backend *)
@@ -90,8 +90,9 @@ Theorem C05_static_complete : forall av pol,
 Proof. exact static_complete. Qed.
 Print Assumptions C05_static_complete.
 
-(* retry loop over ANY sound and complete selector, ANY failure pattern *)
-Theorem C05_retry_reaches_healthy :
+(* retry loop abstracted to an iteration budget, over ANY sound and complete selector, ANY failure
+   pattern (the discrete-time model follows below) *)
+Theorem C05_retry_iter_reaches_healthy :
   forall (S : Type) (sel : S -> list bool -> option nat * S) (fails_at : nat -> nat -> bool),
   (forall st av i st', sel st av = (Some i, st') -> nth i av false = true) ->
   (forall st av, existsb (fun b => b) av = true -> fst (sel st av) <> None) ->
@@ -102,8 +103,8 @@ Theorem C05_retry_reaches_healthy :
   exists j k', fst (retry S sel fails_at fuel true k st base failed trace) = Answered j k' /\
                fails_at k' j = false /\ nth j base false = true.
 Proof. exact retry_reaches_healthy. Qed.
-Print Assumptions C05_retry_reaches_healthy.
-Example C05_retry_nonvacuous :
+Print Assumptions C05_retry_iter_reaches_healthy.
+Example C05_retry_iter_nonvacuous :
   retry N (sel_of PFirst) (fun _ i => nth i [true; true; false] false) 5 true 0 0
         [true; true; true] [false; false; false] [] = (Answered 2 2, [0; 1; 2]%nat).
 Proof. vm_compute. reflexivity. Qed.
@@ -126,11 +127,233 @@ Theorem C05_retry_answer_sound :
 Proof. exact retry_answer_sound. Qed.
 Print Assumptions C05_retry_answer_sound.
 
-Theorem C05_attempt_body_complete : forall (A : Type) nhosts (body : list A) consumed,
+Theorem C05_attempt_body_rewound : forall (A : Type) nhosts (body : list A) consumed,
   (1 < nhosts)%nat -> attempt_body (buffered nhosts true) body consumed = body.
 Proof. intros A. exact (@attempt_body_complete A). Qed.
-Print Assumptions C05_attempt_body_complete.
+Print Assumptions C05_attempt_body_rewound.
 Theorem C05_attempt_body_single_host_refuted :
   exists (body : list N) consumed, attempt_body (buffered 1 true) body consumed <> body.
 Proof. exact attempt_body_single_host_refuted. Qed.
 Print Assumptions C05_attempt_body_single_host_refuted.
+
+(* ================= discrete-time model of Proxy.ServeHTTP's retry loop (runT) ================= *)
+
+(* With retries enabled a request is answered by a healthy backend whenever one exists.
+   For ANY selector that is sound and complete for the next W+1 calls, ANY fault scripts of the
+   other hosts, ANY pre-existing failure records, ANY interference (envdown) on the other hosts:
+   if host g never fails, is never made unavailable, and reach_hyp holds
+     - max_fails >= 1, no script ends in an endless refusal, forwards take at most dmax,
+     - fail_timeout > W * (try_interval + dmax)       (failures seen do not expire too early),
+     - W = 0  or  (W-1) * try_interval + W * dmax < try_duration   (the budget, measured where
+       keepRetrying measures it, covers the W iterations that can be wasted),
+     where W = max_fails * #(other hosts that are up and can fail) + #(scripted refusals),
+   then the request is answered, by a successful forward to a host that is not unhealthy. *)
+Theorem C05_retry_reaches_healthy :
+  forall (S : Type) (sel : S -> list bool -> option nat * S) (sinv : nat -> S -> Prop)
+         c unh scr envdown g dmax,
+  sel_sound S sel ->
+  (forall k st av, length av = t_n c -> sinv (Datatypes.S k) st ->
+     existsb (fun b => b) av = true -> fst (sel st av) <> None) ->
+  (forall k st av, length av = t_n c -> sinv (Datatypes.S k) st -> sinv k (snd (sel st av))) ->
+  reach_hyp c unh scr g dmax = true ->
+  (forall it, envdown it g = false) ->
+  forall fx0 st0 fuel,
+  live 0 (fx0 g) < t_mf c ->
+  sinv (Datatypes.S (N.to_nat (waste c unh scr g))) st0 ->
+  (N.to_nat (waste c unh scr g) < fuel)%nat ->
+  exists j t tr, runT S sel c unh scr envdown fuel 0 fx0 (fun _ => 0%nat) st0 true 0 = (TAnswered j t, tr) /\
+                 answered_ok (t_n c) unh tr (TAnswered j t) = true.
+Proof. exact runT_reaches_healthy. Qed.
+Print Assumptions C05_retry_reaches_healthy.
+
+(* ... in particular behind staticUpstream.Select with every policy of policy.go (round robin: as
+   long as the uint32 counter does not wrap during the request) *)
+Theorem C05_retry_reaches_healthy_policies : forall p c unh scr envdown g dmax,
+  reach_hyp c unh scr g dmax = true ->
+  (forall it, envdown it g = false) ->
+  forall fx0 robin rs fuel,
+  live 0 (fx0 g) < t_mf c ->
+  (p = RRobin -> robin + (waste c unh scr g + 1) * N.of_nat (t_n c) < U32) ->
+  (N.to_nat (waste c unh scr g) < fuel)%nat ->
+  exists j t tr, runT (N * list N) (rsel p) c unh scr envdown fuel 0 fx0 (fun _ => 0%nat) (robin, rs) true 0
+                 = (TAnswered j t, tr) /\ answered_ok (t_n c) unh tr (TAnswered j t) = true.
+Proof. exact runT_reaches_healthy_policies. Qed.
+Print Assumptions C05_retry_reaches_healthy_policies.
+Example C05_retry_reaches_healthy_nonvacuous :
+  reach_hyp exA_c (unh_of [false; false; false]) exA_scr 2 2 = true /\
+  runT _ (rsel RFirst) exA_c (unh_of [false; false; false]) exA_scr no_env 3 0 fx_none cnt0 (0, []) true 0 =
+  (TAnswered 2 11, [EAttempt 0 0 KFailBefore RxNotRead false 0; EAttempt 4 1 KFailAfter RxFull false 6;
+                    EAttempt 10 2 KOk RxFull true 11]).
+Proof. exact exA_run. Qed.
+
+(* the selector the case files evaluate (sel_of: first, round robin, hashing) is that policy selector *)
+Theorem C05_retry_case_selector_is_policy_selector : forall p rp st rs av,
+  rpol_of p = Some rp ->
+  fst (sel_of p st av) = fst (rsel rp (st, rs) av) /\ snd (sel_of p st av) = fst (snd (rsel rp (st, rs) av)).
+Proof. exact sel_of_is_rsel. Qed.
+Print Assumptions C05_retry_case_selector_is_policy_selector.
+
+(* neither hypothesis can be dropped *)
+Theorem C05_retry_reaches_healthy_without_fail_timeout_refuted :
+  exists c scr t tr,
+    t_ft c = 0 /\ all_ok (scr 1%nat) = true /\
+    runT _ (rsel RFirst) c (unh_of [false; false]) scr no_env 100 0 fx_none cnt0 (0, []) true 0 = (T502 t, tr).
+Proof. exact reach_needs_fail_timeout. Qed.
+Print Assumptions C05_retry_reaches_healthy_without_fail_timeout_refuted.
+Theorem C05_retry_reaches_healthy_short_budget_refuted :
+  exists c scr t tr,
+    0 < t_ft c /\ all_ok (scr 1%nat) = true /\
+    runT _ (rsel RFirst) c (unh_of [false; false]) scr no_env 100 0 fx_none cnt0 (0, []) true 0 = (T502 t, tr).
+Proof. exact reach_needs_budget. Qed.
+Print Assumptions C05_retry_reaches_healthy_short_budget_refuted.
+
+(* No host ever succeeds => 502 once try_duration is spent, and the loop terminates: with
+   try_interval > 0 it runs at most try_duration/try_interval + 2 iterations and returns at a time t
+   with try_duration <= t < try_duration + try_interval + dmax. *)
+Theorem C05_retry_502_when_spent :
+  forall (S : Type) (sel : S -> list bool -> option nat * S) c unh scr envdown dmax,
+  sel_sound S sel ->
+  never_ok (t_n c) scr = true -> durs_le (t_n c) scr dmax = true -> 0 < t_ti c ->
+  forall fuel fx cnt st fresh,
+  (N.to_nat (t_td c / t_ti c) + 2 <= fuel)%nat ->
+  exists t tr, runT S sel c unh scr envdown fuel 0 fx cnt st fresh 0 = (T502 t, tr) /\
+               t_td c <= t /\ t < t_td c + t_ti c + dmax.
+Proof. exact retryT_502_top. Qed.
+Print Assumptions C05_retry_502_when_spent.
+Example C05_retry_502_when_spent_nonvacuous :
+  never_ok 2 (scr_of [always KFailBefore 1; always KFailAfter 3]) = true /\
+  runT _ (rsel RFirst) (mk_tcfg 2 1 7 9 2 true) (unh_of [false; false])
+       (scr_of [always KFailBefore 1; always KFailAfter 3]) no_env 6 0 fx_none cnt0 (0, []) true 0 =
+  (T502 9, [EAttempt 0 0 KFailBefore RxNotRead false 1; EAttempt 3 1 KFailAfter RxFull false 6;
+            EAttempt 8 0 KFailBefore RxNotRead false 9]).
+Proof. exact exC_502. Qed.
+
+(* "... and otherwise fails with 502 once the duration is spent": a 502 is never returned earlier,
+   whatever the hosts and the selector do *)
+Theorem C05_retry_502_only_when_spent :
+  forall (S : Type) (sel : S -> list bool -> option nat * S) c unh scr envdown fuel now fx cnt st fresh it t,
+  fst (runT S sel c unh scr envdown fuel now fx cnt st fresh it) = T502 t -> t_td c <= t.
+Proof. exact runT_502_only_spent. Qed.
+Print Assumptions C05_retry_502_only_when_spent.
+
+(* never a hang, whatever the hosts and the selector do *)
+Theorem C05_retry_terminates :
+  forall (S : Type) (sel : S -> list bool -> option nat * S) c unh scr envdown fuel fx cnt st fresh,
+  0 < t_ti c -> (N.to_nat (t_td c / t_ti c) + 2 <= fuel)%nat ->
+  fst (runT S sel c unh scr envdown fuel 0 fx cnt st fresh 0) <> THang.
+Proof. exact retryT_terminates_top. Qed.
+Print Assumptions C05_retry_terminates.
+
+(* the final status is that of the last event: 200 only from a successful forward (script step
+   KOk, complete body) to a host that is not unhealthy; 502 only after failures *)
+Theorem C05_retry_final_status_sound :
+  forall (S : Type) (sel : S -> list bool -> option nat * S) c unh scr envdown,
+  sel_sound S sel -> forall fuel now fx cnt st fresh it,
+  fst (runT S sel c unh scr envdown fuel now fx cnt st fresh it) <> THang ->
+  answered_ok (t_n c) unh (snd (runT S sel c unh scr envdown fuel now fx cnt st fresh it))
+              (fst (runT S sel c unh scr envdown fuel now fx cnt st fresh it)) = true.
+Proof. exact runT_answered_ok. Qed.
+Print Assumptions C05_retry_final_status_sound.
+
+(* every attempt gets the complete original body when the body is buffered (hosts > 1 and
+   try_duration <> 0) or the request has none *)
+Theorem C05_attempt_body_complete :
+  forall (S : Type) (sel : S -> list bool -> option nat * S) c unh scr envdown,
+  negb (t_hasbody c) || t_buf c = true ->
+  forall fuel now fx cnt st fresh it,
+  bodies_ok (snd (runT S sel c unh scr envdown fuel now fx cnt st fresh it)) = true /\
+  forall (A : Type) (body : list A) t i k rx ok te,
+    In (EAttempt t i k rx ok te) (snd (runT S sel c unh scr envdown fuel now fx cnt st fresh it)) ->
+    rx_bytes body rx = None \/ rx_bytes body rx = Some body.
+Proof. exact body_complete_top. Qed.
+Print Assumptions C05_attempt_body_complete.
+Example C05_attempt_body_complete_nonvacuous : negb (t_hasbody exA_c) || t_buf exA_c = true.
+Proof. exact exA_buffered. Qed.
+(* ... false for the unbuffered single-host pool: max_fails 2, the host is tried again, the second
+   forward finds the body closed and the request ends with 502 *)
+Theorem C05_attempt_body_complete_unbuffered_refuted :
+  t_buf exB_c = false /\
+  bodies_ok (snd (runT _ (rsel RFirst) exB_c (unh_of [false]) exB_scr no_env 20 0 fx_none cnt0 (0, []) true 0)) = false /\
+  exists t, fst (runT _ (rsel RFirst) exB_c (unh_of [false]) exB_scr no_env 20 0 fx_none cnt0 (0, []) true 0) = T502 t.
+Proof. exact body_unbuffered_refuted. Qed.
+Print Assumptions C05_attempt_body_complete_unbuffered_refuted.
+(* ... what remains true without buffering: the first forward that runs gets the complete body *)
+Theorem C05_attempt_body_first_attempt_partial :
+  forall (S : Type) (sel : S -> list bool -> option nat * S) c unh scr envdown fuel now fx cnt st it,
+  first_attempt_ok (snd (runT S sel c unh scr envdown fuel now fx cnt st true it)) = true.
+Proof. exact runT_first_attempt_ok. Qed.
+Print Assumptions C05_attempt_body_first_attempt_partial.
+
+(* a host is only used (forwarded to, or acquired) while fewer than max_fails of the failures this
+   request has seen on it are unexpired: failed hosts are skipped until fail_timeout has passed *)
+Theorem C05_failed_hosts_skipped_until_expiry :
+  forall (S : Type) (sel : S -> list bool -> option nat * S) c unh scr envdown,
+  sel_sound S sel -> forall fuel now fx cnt st fresh it,
+  skip_ok (t_mf c) (t_ft c) (fun _ => []) (snd (runT S sel c unh scr envdown fuel now fx cnt st fresh it)) = true.
+Proof. exact skip_top. Qed.
+Print Assumptions C05_failed_hosts_skipped_until_expiry.
+
+(* ================= round robin across the uint32 wrap ================= *)
+
+(* EXACT completeness for every counter value, wrap included: RoundRobin.Select returns a host iff
+   one of the n slots ((robin + k) mod 2^32) mod n, k = 1..n, is available *)
+Theorem C05_round_robin_complete_exact : forall av robin,
+  fst (rr_select av robin) <> None <->
+  exists k, (k < length av)%nat /\
+    nth (N.to_nat (((robin + 1 + N.of_nat k) mod U32) mod N.of_nat (length av))) av false = true.
+Proof. exact rr_complete_exact. Qed.
+Print Assumptions C05_round_robin_complete_exact.
+(* pool sizes that divide 2^32 (1, 2, 4, 8, ...) are complete for EVERY counter value *)
+Theorem C05_round_robin_complete_divides : forall av robin,
+  U32 mod N.of_nat (length av) = 0 ->
+  existsb (fun b => b) av = true -> fst (rr_select av robin) <> None.
+Proof. exact rr_complete_divides. Qed.
+Print Assumptions C05_round_robin_complete_divides.
+Example C05_round_robin_complete_divides_nonvacuous :
+  U32 mod 4 = 0 /\ fst (rr_select [false; false; true; false] 4294967294) = Some 2%nat.
+Proof. exact rr_wrap_pow2. Qed.
+(* any other pool size: the wrap costs at most the ONE Select that straddles it (C05_round_robin_complete_wrap_refuted);
+   the counter is then just past the wrap and the next Select finds a host *)
+Theorem C05_round_robin_miss_then_hit : forall av robin,
+  robin < U32 -> N.of_nat (length av) + N.of_nat (length av) <= U32 ->
+  existsb (fun b => b) av = true ->
+  fst (rr_select av robin) = None ->
+  U32 <= robin + N.of_nat (length av) /\
+  snd (rr_select av robin) = robin + N.of_nat (length av) - U32 /\
+  fst (rr_select av (snd (rr_select av robin))) <> None.
+Proof. exact rr_miss_then_hit. Qed.
+Print Assumptions C05_round_robin_miss_then_hit.
+Example C05_round_robin_miss_then_hit_nonvacuous :
+  fst (rr_select [false; false; true] 4294967294) = None /\
+  snd (rr_select [false; false; true] 4294967294) = 1 /\
+  fst (rr_select [false; false; true] 1) = Some 2%nat.
+Proof. exact rr_wrap_miss_hit. Qed.
+
+(* evenness, wrap included.  With all hosts up the k-th selection is slot ((robin+k) mod 2^32) mod n
+   for EVERY counter value; over a window of k*n selections (at most one wrap inside) every host is
+   chosen exactly k times if the counter does not wrap inside the window and k-1, k or k+1 times if it
+   does; when n divides 2^32 every window of n selections visits every host, also across the wrap;
+   for other sizes the window that straddles the wrap skips a host *)
+Theorem C05_round_robin_counts : forall av robin k j,
+  (0 < length av)%nat -> forallb (fun b => b) av = true -> robin < U32 ->
+  N.of_nat (k * length av) <= U32 -> (j < length av)%nat ->
+  rr_run av robin (k * length av) = map Some (rr_idxs (N.of_nat (length av)) robin (k * length av)) /\
+  let c := cnt j (rr_idxs (N.of_nat (length av)) robin (k * length av)) in
+  (k - 1 <= c <= k + 1)%nat /\ (robin + N.of_nat (k * length av) < U32 -> c = k).
+Proof. exact rr_counts_run. Qed.
+Print Assumptions C05_round_robin_counts.
+Example C05_round_robin_counts_nonvacuous :
+  rr_idxs 3 4294967293 6 = [2; 0; 0; 1; 2; 0]%nat /\
+  cnt 0 (rr_idxs 3 4294967293 6) = 3%nat /\ cnt 1 (rr_idxs 3 4294967293 6) = 1%nat.
+Proof. exact rr_counts_wrap. Qed.
+Theorem C05_round_robin_even_divides : forall av robin,
+  (0 < length av)%nat -> U32 mod N.of_nat (length av) = 0 -> forallb (fun b => b) av = true ->
+  forall j, (j < length av)%nat -> In (Some j) (rr_run av robin (length av)) /\
+  length (rr_run av robin (length av)) = length av.
+Proof. exact rr_even_divides. Qed.
+Print Assumptions C05_round_robin_even_divides.
+Theorem C05_round_robin_even_wrap_refuted :
+  exists av robin j, forallb (fun b => b) av = true /\ (j < length av)%nat /\
+    ~ In (Some j) (rr_run av robin (length av)).
+Proof. exact rr_even_wrap_refuted. Qed.
+Print Assumptions C05_round_robin_even_wrap_refuted.
